@@ -31,6 +31,7 @@ type Thread struct {
 	// spawner is set while the thread runs eagerly from its start to its first scheduling point
 	spawner *Thread
 	atomic  int
+	quiet   int
 }
 
 // Timer is a pending virtual-time event. fire runs in scheduler context and must not block or
@@ -273,6 +274,17 @@ func Atomic(f func()) {
 	f()
 }
 
+// Quiet is Atomic for a phase whose own path may legitimately depend on what earlier executions left
+// in package-level state of the code under test (a prologue that brings caches and pools to a
+// canonical state): its scheduling points are neither yielded at nor mixed into the trace hash.
+func Quiet(f func()) {
+	t := S.cur
+	t.atomic++
+	t.quiet++
+	defer func() { t.atomic--; t.quiet-- }()
+	f()
+}
+
 // Go spawns a new scheduled thread.
 func Go(f func()) { GoNamed("", f) }
 
@@ -312,7 +324,9 @@ func Op(op string, obj int, cond func() bool) {
 	t := s.cur
 	if t.atomic > 0 && t.spawner == nil && (cond == nil || cond()) {
 		s.lastKey = ""
-		s.mix(op, t.ID, obj)
+		if t.quiet == 0 {
+			s.mix(op, t.ID, obj)
+		}
 		return
 	}
 	t.cond = cond
